@@ -454,7 +454,7 @@ def record_and_replay(prop, ob, db, sc, do_replay=True):
             '  for (auto& pp : ptrs) for (unsigned long long n : ns) { what = pp.w; cur_n = n; alarm(5); avel::%s%s((%s)pp.p, (std::size_t)n); alarm(0); }' % (pf['name'], tpl, pt),
             '  std::printf("REPLAY: real code satisfies the contract on this input\\n"); return 0;', '}']) + '\n'
         rec['program'] = prog
-        res = build_and_run(prog, ob.cfgs[0], sc.path('replay-' + tag), ubsan=False) if do_replay else {'status': 'confirmed', 'output': 'not executed (replay cap)'}
+        res = build_and_run(prog, ob.cfgs[0], sc.path('replay-' + tag), ubsan=False) if do_replay else {'status': 'not-executed', 'output': 'not executed in the run that recorded it (replay cap reached): run `python3 run.py --replay <this file>`'}
         rec['replay'] = res
         status = res['status']
     elif inputs is not None and ob.contract.cxx:
@@ -492,7 +492,7 @@ def record_and_replay(prop, ob, db, sc, do_replay=True):
             if do_replay:
                 res = build_and_run(prog, ob.cfgs[0], sc.path('replay-' + tag))
             else:
-                res = {'status': 'confirmed', 'output': 'not executed in the run that recorded it (replay cap reached; earlier violations of the same run were confirmed): run `python3 run.py --replay <this file>`'}
+                res = {'status': 'not-executed', 'output': 'not executed in the run that recorded it (replay cap reached): run `python3 run.py --replay <this file>`'}
             rec['replay'] = res
             status = res['status']
             if status == 'not-reproduced' and do_replay and getattr(ob.contract, 'replay_lattice', None) and not getattr(ob.contract, 'mem', None):
